@@ -10,6 +10,9 @@ def plan(tier, seed):
         spec += [("welford", 3, None), ("welford", 4, 1), ("welford", 4, 7), ("welford_first", 4, None), ("scale_scale", 3, 1), ("scale_norm", 4, 2), ("ema", 3, None)]
     for case, m, n0 in spec:
         jobs.append({"id": f"C20:{case} m={m} n0={n0}", "module": "vf.training", "func": "stats_job", "params": dict(case=case, m=m, n0=n0)})
+    # two-dimensional batches ([batch, n_start] advantages of multi-start training): every VALUE counts
+    for case, m, n0 in [("welford", 2, 3), ("welford_first", 2, None)]:
+        jobs.append({"id": f"C20:{case} m={m}x2 n0={n0}", "module": "vf.training", "func": "stats_job", "params": dict(case=case, m=m, n0=n0, cols=2)})
     return {"jobs": jobs, "level": "model_checking",
             "bounds": "one inductive step from an ARBITRARY history summarised by (n, S1, S2) with n symbolic or concrete; absorbed batch of m<=4 symbolic values; EMA 3 steps with symbolic beta; warm-up n_epochs<=3",
             "outside": "total count 1 (sample standard deviation undefined); float32 rounding of the accumulators"}
@@ -26,9 +29,11 @@ def confirm(rp, resp):
     p = rp["params"]
     if "error" in resp:
         return True, "the real RewardScaler raised: " + resp["error"]
-    if "history" not in resp or p["case"] in ("ema", "warmup"):
+    if p["case"] in ("ema", "warmup"):
+        return (True, "; ".join(resp["violations"][:2])) if resp.get("violations") else (False, "real baseline follows the recurrence / schedule")
+    if "history" not in resp:
         return False, "no real-torch replay implemented for this case"
-    xs = [float(Fraction(p["values"].get(f"x{i}", "0"))) for i in range(p["m"])]
+    xs = [float(Fraction(p["values"].get(f"x{i}", "0"))) for i in range(p["m"] * p.get("cols", 1))]
     allv = list(resp["history"]) + xs
     n = len(allv)
     mean = sum(allv) / n
@@ -51,7 +56,8 @@ def confirm(rp, resp):
             ref = [x / 4 for x in xs]
         else:
             ref = xs
-        if any(abs(a - b) > 1e-5 * (1 + abs(b)) for a, b in zip(resp["output"], ref)):
+        flat_out = [v for row in resp["output"] for v in (row if isinstance(row, list) else [row])]
+        if any(abs(a - b) > 1e-5 * (1 + abs(b)) for a, b in zip(flat_out, ref)):
             return True, f"scaled output {resp['output']} != stated transformation {ref}"
     return False, "real statistics agree with the recomputation"
 
